@@ -804,6 +804,43 @@ func rulesC16(e *Engine, r *Report) {
 			r.Min("R16.12", "ways the tracker passes over an incomplete entry", n, 1)
 		}
 	}
+	// ---------------------------------------------------------------- R16.13
+	r.Rule("R16.13", "a verdict takes the file off the validator's list: in startValidate every pass over a polled file that calls finish(f) also does delete(poll, f.GetName()) - the validator leaves only with an empty list, and after a stop nothing re-enters it (the resend that would replace the entry does not happen: finish() hands nothing to the retriers once a stop was asked for)")
+	if fn := needFn(e, r, "R16.13", "client.(*Broker).startValidate"); fn != nil {
+		fins := e.findInstrs(fn, "call(client.(*Broker).finish)(p0, §)", false)
+		r.Min("R16.13", "finish() calls in startValidate", len(fins), 2)
+		if len(fins) > 0 {
+			var backs []ssa.Instruction
+			for _, f := range fins {
+				_, bs := innermostLoop(f)
+				backs = append(backs, bs...)
+			}
+			finRe := regexp.MustCompile(`^call\(client\.\(\*Broker\)\.finish\)\(p0, (.*)\)$`)
+			delRe := regexp.MustCompile(`^builtin\(delete\)\(make\(map\[string\]\*client\.progressFile\), invoke\(sts\.Polled\.GetName\)\((.*)\)\)$`)
+			cls := func(ev *Event) (add, kill []string) {
+				if ev.Kind != EvInstr {
+					return
+				}
+				if m := finRe.FindStringSubmatch(ev.Str); m != nil {
+					add = append(add, "finished:"+m[1])
+				}
+				if m := delRe.FindStringSubmatch(ev.Str); m != nil {
+					add = append(add, "deleted:"+m[1])
+				}
+				return
+			}
+			res := e.Flow(fn, FlowOpts{Classify: cls, Target: anyOf(backs)})
+			e.judge(r, "R16.13", "client.(*Broker).startValidate: a file given its verdict leaves the list in the same pass", fn, res,
+				func(l LabelSet) bool {
+					for k := range l {
+						if strings.HasPrefix(k, "finished:") && !l.Has("deleted:"+strings.TrimPrefix(k, "finished:")) {
+							return false
+						}
+					}
+					return true
+				}, "delete(poll, f.GetName()) in the iteration that called finish(f)")
+		}
+	}
 }
 
 func shortPred(p string) string {
